@@ -225,7 +225,7 @@ def check(case, ctx):
             out = None
         except Exception as e:  # noqa
             raise Violation(f"wrong-exception:{type(e).__name__}",
-                            f"{before_r}.{name}{_r(tuple(args))} raised {e!r} (not DeclarationError)")
+                            f"raised {e!r} (not DeclarationError): {before_r[:300]}.{name}{_r(tuple(args))[:600]}")
         if len(args) == 1 and name != "__call__":
             # one argument, passed by keyword instead of by position: same outcome
             import inspect
@@ -239,7 +239,7 @@ def check(case, ctx):
                 raise
             except Exception as e:  # noqa
                 raise Violation(f"wrong-exception:{type(e).__name__}",
-                                f"{before_r}.{name}({pname}={_r(args[0])}) raised {e!r} (not DeclarationError)")
+                                f"raised {e!r} (not DeclarationError): {before_r[:300]}.{name}({pname}={_r(args[0])[:600]})")
             if (kw_out is None) != (out is None) or (out is not None and isinstance(out, Schema) and canon.canon(kw_out) != canon.canon(out)):
                 raise Violation("keyword-call-differs", f"{before_r}.{name}({_r(args[0])}) and .{name}({pname}={_r(args[0])}) differ: "
                                                         f"{_r(out)} / {_r(kw_out)}")
